@@ -26,6 +26,11 @@ def sweeps(col, pp, mons, hdepth_quick=3, hdepth_thorough=4, track_path=False):
         # the same geometry sweep with every transfer performed as a single recipe step
         e1.Explorer(pp, v, e1.W_DEFAULT, e1.seed_history_P(), alphabets.geometry_sweep()[::2], mons, 'G/S0/recipe', track_path,
                     via_recipe=True).run(1, col)
+        # ... and with every transfer made TWICE through the same operand objects (a slice kept in a variable): the second call
+        # is judged against the same pre-state, so a call that re-points or writes through the caller's slice shows as a
+        # gain or loss
+        e1.Explorer(pp, v, e1.W_DEFAULT, e1.seed_history_P(), alphabets.geometry_sweep()[1::2], mons, 'G/S0/repeat', track_path,
+                    repeat=True).run(1, col)
         # two versions of one plate: distinct objects carrying the same name are different plates
         wv = dict(e1.W_DEFAULT, Pv=('plate', '500 uL', 2, 3, 'P'))
         hv = e1.seed_history_P() + [alphabets.T('B', ['Pv', f"({r}, {c})"], f"{10 * (r + c)} uL") for r in (1, 2) for c in (1, 2, 3)]
